@@ -1141,6 +1141,8 @@ def add_time_after_dose(model: Model):
     # Restore the record order of the input dataset
     df = df.sort_values(by='_ROWORDER', kind='stable').reset_index(drop=True)
     df.drop(columns=['_NEWTIME', '_DOSEID', '_ROWORDER'], inplace=True)
+    # The expansion of additional doses upcasts all columns to float: keep the dtypes of the input
+    df = df.astype({col: dtype for col, dtype in model.dataset.dtypes.items() if col in df.columns})
 
     # FIXME: Temp workaround, should be canonicalized in Model.replace
     di = update_datainfo(model.datainfo, df)
